@@ -396,6 +396,75 @@ def stage_structure(ctx: Ctx, progs):
                         ctx.violation(f'layout|{name}|{type(a).__name__}', 'match result depends on layout', {'src': src, 'relayout': re_src, 'pattern': name, 'node_src': f.src[:80]})
 
 
+def stage_history(ctx: Ctx):
+    """a match never depends on previous calls: ONE pattern object matched against a sequence of targets gives, at every step, what a freshly built
+    pattern object gives on that target alone (match + search), and the pattern object itself does not change (repr). Patterns with static tags in
+    front of optional captures, alternatives over list fields with lazy quantifiers that fail to extend, NOT / MAYBE."""
+    import fst
+    from fst.match import M, MOR, MAND, MNOT, MBinOp, MList, MQSTAR, MQPLUS, MQOPT, MName, MCall, MTAG, MConstant, MTuple
+    try:
+        from fst.match import MMAYBE
+    except ImportError:
+        MMAYBE = None
+    rng = ctx.rng
+    makers = [
+        ('BinOp(left=M(Name,static), right=OR(M(const=Constant), Name))', lambda: MBinOp(left=M(ast.Name, is_name=True), right=MOR(M(const=ast.Constant), ast.Name))),
+        ('List(OR([a*? c], [*, last]))', lambda: MList(elts=MOR([MQSTAR.NG('a'), 'c'], [MQSTAR, M(last=ast.Name)]))),
+        ('List(OR([x a*? c], [*, \\x]))', lambda: MList(elts=MOR([M(x=ast.Name), MQSTAR.NG('a'), 'c'], [MQSTAR, MTAG('x')]))),
+        ('Call(func=M(Name,k=1), args=[OR(M(c=Constant), Name)*])', lambda: MCall(func=M(ast.Name, k=1), args=[MQSTAR(MOR(M(c=ast.Constant), ast.Name))])),
+        ('AND(M(BinOp, s=True), BinOp(right=M(r=Constant)))', lambda: MOR(MAND(M(ast.BinOp, s=True), MBinOp(right=M(r=ast.Constant))), M(other=...))),
+        ('NOT(List([a+? b]))', lambda: MNOT(MList(elts=[MQPLUS.NG('a'), 'b']))),
+        ('List([M(h=...) static, (x)?, *])', lambda: MList(elts=[M(h=..., first=True), MQOPT(M(x=ast.Constant)), MQSTAR])),
+        ('Tuple(OR([M(a=Name)], [M(b=Constant)], [M(c=...), *]))', lambda: MTuple(elts=MOR([M(a=ast.Name)], [M(b=ast.Constant)], [M(c=...), MQSTAR]))),
+    ]
+    targets = ['a + 1', 'a + b', '1 + a', '[a, b, d]', '[a, a, c]', '[q, b, q]', '[q, a, c]', 'f(1, x)', 'f(x)', 'f()', '[a, b]', '[a, a, b]', '[1]', '[x, 1, 2]', '(a,)', '(1,)', '(f(), 2)', 'x', '[]']
+    trees = {t: fst.FST(t, 'expr') for t in targets}
+
+    def shape(m):
+        if m is None:
+            return None
+        out = {}
+        for k, v in m.tags.items():
+            if isinstance(v, list):
+                out[k] = [shape(x) if hasattr(x, 'tags') else (type(x).__name__, ast.unparse(x)) if isinstance(x, ast.AST) else str(x) for x in v]
+            elif hasattr(v, 'a') and isinstance(v.a, ast.AST):
+                out[k] = (type(v.a).__name__, ast.unparse(v.a))
+            elif isinstance(v, ast.AST):
+                out[k] = (type(v).__name__, ast.unparse(v))
+            else:
+                out[k] = repr(v)
+        return out
+    for name, mk in makers:
+        try:
+            shared = mk()
+        except Exception as e:
+            ctx.broken.append({'kind': 'harness', 'name': 'stage_history', 'detail': f'{name}: {e!r}'[:200]})
+            continue
+        r0 = repr(shared)
+        for rnd in range(ctx.scale(6, 40)):
+            seq = [rng.choice(targets) for _ in range(rng.randrange(2, 6))]
+            hist = []
+            for t in seq:
+                how = rng.choice(['match', 'match', 'search', 'pure'])
+                if how == 'match':
+                    got, want = shape(shared.match(trees[t])), shape(mk().match(trees[t]))
+                elif how == 'pure':
+                    got, want = shape(shared.match(trees[t].copy_ast())), shape(mk().match(trees[t]))
+                else:
+                    node_of = lambda m: getattr(m, 'matched', m)
+                    got = [(type(node_of(m).a).__name__, node_of(m).src, shape(m) if hasattr(m, 'tags') else None) for m in trees[t].search(shared)]
+                    want = [(type(node_of(m).a).__name__, node_of(m).src, shape(m) if hasattr(m, 'tags') else None) for m in trees[t].search(mk())]
+                hist.append([how, t])
+                ctx.tick(('hist', name, tuple(map(tuple, hist))), 'history:' + how)
+                if got != want:
+                    ctx.violation(f'history|{name}', 'the result of a match depends on the matches made before with the same pattern object',
+                                  {'pattern': name, 'history': hist, 'got': repr(got)[:300], 'fresh_pattern_gives': repr(want)[:300]})
+                    break
+                if repr(shared) != r0:
+                    ctx.violation(f'history-pattern-mutated|{name}', 'matching changed the pattern object', {'pattern': name, 'history': hist, 'repr_before': r0[:300], 'repr_after': repr(shared)[:300]})
+                    break
+
+
 def run(ctx: Ctx):
     ctx.rule = ('(1) pattern sequences (<=2 items exhaustively sampled, 3 items random; items over {a, b, ., Q(a), Q(.), Q([a;b])} x {*, +, ?, {1,2}} x greedy/lazy) '
                 'x element sequences over {a,b,c} up to length 4 (quick) / 5 (thorough): real matcher vs re.fullmatch (accept + repetition counts) and vs the Coq '
@@ -408,6 +477,7 @@ def run(ctx: Ctx):
     run_guarded(ctx, stage_quantifiers)
     run_guarded(ctx, stage_backrefs)
     run_guarded(ctx, stage_nested)
+    run_guarded(ctx, stage_history)
     progs = corpus(ctx.rng, gen=ctx.scale(6, 60))
     run_guarded(ctx, stage_search, progs)
     run_guarded(ctx, stage_structure, [p for p in progs if len(p) < 1200])
